@@ -201,7 +201,10 @@ std::string vf_run(const Case &c, vf::Ctx &ctx) {
         if ((fwd.recorded != before) != expect_event) return std::string("parameter port emitted ") + (fwd.recorded != before ? "an" : "no") + " undo event for a set that " + (expect_event ? "changes" : "does not change") + " the value" + W;
       } else {
         e.addr = ADDR[op.addr]; e.oldb = bits(op.type, op.oldv); e.newb = bits(op.type, op.newv);
-        std::string msg = refosc::encode("/undo_change", std::string("s") + op.type + op.type, {[&] { refosc::Val v; v.t = 's'; v.s = e.addr; return v; }(), val(op.type, e.oldb), val(op.type, e.newb)});
+        // the event's own name is the recorder's business ("/undo_change" is what the parameter macros use, the manual's
+        // example is "/undo/handler"): shorter and longer ones, fixed per case
+        static const char *EVNAME[4] = {"/undo_change", "/undo", "/undo/handler", "/u"};
+        std::string msg = refosc::encode(EVNAME[(c.ops.size() / 2) % 4], std::string("s") + op.type + op.type, {[&] { refosc::Val v; v.t = 's'; v.s = e.addr; return v; }(), val(op.type, e.oldb), val(op.type, e.newb)});
         std::vector<char> b(msg.size() + 8, 0);
         memcpy(b.data(), msg.data(), msg.size());
         if (with_shadow) u2.recordEvent(b.data());
